@@ -59,6 +59,18 @@ CHECKS = {
          "table-agreement rules between the listing, the dispatch switch and the decoration constants", "strings.Split/ToLower/sort.Strings as documented.", "DESIGN.md 3 C19"),
 }
 
+# clauses added by later seeding rounds (appended to the text above)
+EXTRA = {
+ "C05": " Also: a write that begins with the separator sits only where a field of the same record is known to have been written (no record begins with a separator).",
+ "C06": " Also: the id, class and caption strings handed to the template are the wrapper's settings read as they are.",
+ "C07": " Also: wherever json.Marshal of the item may have failed nothing else is encoded, written or reported as success.",
+ "C10": " Also: every renderer registers its measuring callback for the RENDER slot of each cell (sibling agreement).",
+ "C11": " Also: AddError records every non-nil error a non-nil container is given (no filter, limit or de-duplication).",
+ "C14": " Also (premise from C06): what a renderer keeps between renders is re-bound to the current wrapper and table before each use.",
+ "C16": " Also: no exported function stores into a slice or map its caller handed it (callers may share what they build tables from).",
+ "C18": " Also: the count formula gives the height only of a text known not to be empty (the splitter yields no line for the empty text).",
+}
+
 NA = {}
 
 props = [json.loads(l) for l in open('properties.jsonl')]
@@ -67,6 +79,7 @@ for p in props:
     i = p['id']
     if i in CHECKS:
         text, tech, note, ref = CHECKS[i]
+        text += EXTRA.get(i, "")
         checks.append({
             "property_id": i,
             "quick_cmd": f"./check.sh {i} quick",
